@@ -13,11 +13,14 @@ Proof. destruct k; reflexivity. Qed.
 Lemma is_info_timeout_code k : is_info (timeout_code k) = false.
 Proof. destruct k; reflexivity. Qed.
 
+Lemma rw_commit_rfl c w : rfl (rw_commit c w) = rfl w.
+Proof. unfold rw_commit. destruct (rres w); [reflexivity|]. destruct (is_info c); reflexivity. Qed.
+
 Lemma rw_wh_rfl c w : rfl (rw_wh c w) = rfl w.
-Proof. unfold rw_wh. destruct (rres w); [reflexivity|]. destruct (is_info c); reflexivity. Qed.
+Proof. unfold rw_wh. cbn. apply rw_commit_rfl. Qed.
 
 Lemma rw_write_rfl bs w : rfl (rw_write bs w) = rfl w.
-Proof. unfold rw_write. cbn. apply rw_wh_rfl. Qed.
+Proof. unfold rw_write. cbn. apply rw_commit_rfl. Qed.
 
 (* ------------------------------------------------------------------ *)
 (* handler actions                                                      *)
@@ -141,11 +144,11 @@ Proof.
       set (w1 := rw_hdr (fun d => overlay d (bh b)) w).
       assert (Hr1 : rres w1 = Some x) by exact Hr.
       assert (Hw1 : rw_write (bbody b) w1 =
-                    mkRW (rfl w) (rlive w1) (Some x) (rbody w ++ bbody b) (rinfo w)).
-      { unfold rw_write, rw_wh. rewrite Hr1. cbn. rewrite Hr. reflexivity. }
+                    mkRW (rfl w) (rlive w1) (Some x) (rbody w ++ bbody b) (rinfo w) (rcode w)).
+      { unfold rw_write, rw_commit. rewrite Hr1. cbn. rewrite Hr. reflexivity. }
       rewrite Hw1.
       destruct (IH (mkBuf (bh b) [] (bcode b) true true)
-                   (mkRW (rfl w) (rlive w1) (Some x) (rbody w ++ bbody b) (rinfo w)) x
+                   (mkRW (rfl w) (rlive w1) (Some x) (rbody w ++ bbody b) (rinfo w) (rcode w)) x
                    Hf eq_refl eq_refl eq_refl) as [I1 I2].
       split; [exact I1|]. intros Hn. rewrite (I2 Hn). cbn. rewrite <- app_assoc. reflexivity.
 Qed.
@@ -167,7 +170,7 @@ Proof. reflexivity. Qed.
 Lemma fl_writer_shape b h0 :
   rfl (fl_writer b h0) = true /\ (exists x, rres (fl_writer b h0) = Some x) /\
   (is_info (fl_code b) = false ->
-   fl_writer b h0 = mkRW true (overlay h0 (bh b)) (Some (fl_code b, overlay h0 (bh b))) (bbody b) []).
+   fl_writer b h0 = mkRW true (overlay h0 (bh b)) (Some (fl_code b, overlay h0 (bh b))) (bbody b) [] (fl_code b)).
 Proof.
   unfold fl_writer. split; [|split].
   - rewrite rw_write_rfl. destruct (_ =? 200); [reflexivity|]. rewrite rw_wh_rfl. reflexivity.
@@ -294,9 +297,21 @@ Lemma flush_unfrozen_live b w c hs :
 Proof.
   intros Hr. unfold flush.
   destruct (_ || _).
-  - unfold rw_write, rw_wh, rw_hdr. cbn. rewrite Hr. cbn. intros H; inversion H; reflexivity.
-  - unfold rw_write, rw_wh, rw_hdr. cbn. rewrite Hr.
+  - unfold rw_write, rw_commit, rw_hdr. cbn. rewrite Hr. cbn. intros H; inversion H; reflexivity.
+  - unfold rw_write, rw_wh, rw_commit, rw_hdr. cbn. rewrite Hr.
     destruct (is_info (bcode b)); cbn; intros H; inversion H; reflexivity.
+Qed.
+
+(* the outer record after the done branch on an untouched writer is the status the client got
+   (unless a 1xx went out: known finding) *)
+Lemma flush_fresh_code b fl h0 c hs :
+  rres (flush b (rw_fresh fl h0)) = Some (c, hs) -> rinfo (flush b (rw_fresh fl h0)) = [] ->
+  rcode (flush b (rw_fresh fl h0)) = c.
+Proof.
+  unfold flush. destruct ((bcode b =? 200) || bfl b) eqn:E.
+  - unfold rw_write, rw_commit, rw_hdr, rw_fresh. cbn. intros H _. inversion H. reflexivity.
+  - unfold rw_write, rw_wh, rw_commit, rw_hdr, rw_fresh. cbn.
+    destruct (is_info (bcode b)); cbn; intros H Hi; [discriminate|]. inversion H. reflexivity.
 Qed.
 
 (* without an effective Flush the whole real writer (live header map included) is described *)
@@ -314,10 +329,11 @@ Proof.
   assert (Hl : forall c hs, rres (flush b (rw_fresh fl h0)) = Some (c, hs) -> hs = rlive (flush b (rw_fresh fl h0))).
   { intros c hs. apply flush_unfrozen_live. reflexivity. }
   pose proof (flush_rfl b (rw_fresh fl h0)) as Hfl.
+  pose proof (flush_fresh_code b fl h0) as Hcd.
   unfold rw_view, spec_view, spec_frozen in V.
-  destruct (flush b (rw_fresh fl h0)) as [f l r bd inf]. cbn in *.
+  destruct (flush b (rw_fresh fl h0)) as [f l r bd inf cd]. cbn in *.
   inversion V; subst. clear V.
-  rewrite <- (Hl _ _ eq_refl).
+  rewrite <- (Hl _ _ eq_refl). rewrite (Hcd _ _ eq_refl (info_first_no_infos _ _ _ _ Hi)).
   unfold spec_complete.
   assert (E1 : (if fl then before_flush acts else acts) = acts).
   { destruct Hf as [->|Hf]; [reflexivity|]. destruct fl; [apply before_flush_noflush, Hf|reflexivity]. }
@@ -366,11 +382,11 @@ Proof.
     + unfold tw_flush. rewrite Hf. cbn [negb fst snd]. rewrite Hb, Hw.
       set (w1 := rw_hdr (fun d => overlay d (bh b)) w).
       assert (Hw1 : rw_write (bbody b) w1 =
-                    mkRW (rfl w) (rlive w1) (Some x) (rbody w ++ bbody b) (rinfo w)).
-      { unfold rw_write, rw_wh. assert (Hr1 : rres w1 = Some x) by exact Hr. rewrite Hr1. cbn. rewrite Hr. reflexivity. }
+                    mkRW (rfl w) (rlive w1) (Some x) (rbody w ++ bbody b) (rinfo w) (rcode w)).
+      { unfold rw_write, rw_commit. assert (Hr1 : rres w1 = Some x) by exact Hr. rewrite Hr1. cbn. rewrite Hr. reflexivity. }
       rewrite Hw1.
       rewrite (IH (mkBuf (bh b) [] (bcode b) true true)
-                  (mkRW (rfl w) (rlive w1) (Some x) (rbody w ++ bbody b) (rinfo w)) x Hf eq_refl eq_refl eq_refl Hn).
+                  (mkRW (rfl w) (rlive w1) (Some x) (rbody w ++ bbody b) (rinfo w) (rcode w)) x Hf eq_refl eq_refl eq_refl Hn).
       cbn [rinfo rbody bbody upto_last_flush]. rewrite has_flush_cons. cbn [orb spec_body].
       rewrite <- app_assoc. destruct (has_flush acts) eqn:E.
       * reflexivity.
@@ -438,11 +454,16 @@ Qed.
 
 Lemma rw_wh_final c w :
   is_info c = false -> rres w = None ->
-  rw_wh c w = mkRW (rfl w) (rlive w) (Some (c, rlive w)) (rbody w) (rinfo w).
-Proof. intros Hi Hr. unfold rw_wh. rewrite Hr, Hi. reflexivity. Qed.
+  rw_wh c w = mkRW (rfl w) (rlive w) (Some (c, rlive w)) (rbody w) (rinfo w) c.
+Proof. intros Hi Hr. unfold rw_wh, rw_commit. rewrite Hr, Hi. reflexivity. Qed.
 
-Lemma rw_wh_frozen c w x : rres w = Some x -> rw_wh c w = w.
-Proof. intros Hr. unfold rw_wh. rewrite Hr. reflexivity. Qed.
+Lemma rw_commit_frozen c w x : rres w = Some x -> rw_commit c w = w.
+Proof. intros Hr. unfold rw_commit. rewrite Hr. reflexivity. Qed.
+
+(* a superfluous WriteHeader changes only the outer record *)
+Lemma rw_wh_frozen c w x :
+  rres w = Some x -> rw_wh c w = mkRW (rfl w) (rlive w) (rres w) (rbody w) (rinfo w) c.
+Proof. intros Hr. unfold rw_wh. rewrite (rw_commit_frozen _ _ _ Hr). reflexivity. Qed.
 
 Lemma timeout_write_view k w :
   rw_view (timeout_write k w) =
@@ -452,11 +473,16 @@ Lemma timeout_write_view k w :
   end.
 Proof.
   unfold timeout_write. destruct (rres w) eqn:E.
-  - rewrite (rw_wh_frozen _ _ _ E). unfold rw_write. rewrite (rw_wh_frozen _ _ _ E).
+  - rewrite (rw_wh_frozen _ _ _ E). unfold rw_write. erewrite rw_commit_frozen by (cbn; exact E).
     unfold rw_view. cbn. rewrite E. reflexivity.
   - rewrite (rw_wh_final _ _ (is_info_timeout_code k) E). unfold rw_write.
-    erewrite rw_wh_frozen by reflexivity. reflexivity.
+    erewrite rw_commit_frozen by reflexivity. reflexivity.
 Qed.
+
+(* the outer middlewares' record after the timeout branch is the timeout status, whatever
+   the handler did before — even if its own status is already on the wire *)
+Lemma timeout_write_code k w : rcode (timeout_write k w) = timeout_code k.
+Proof. unfold timeout_write, rw_write, rw_wh. cbn. unfold rw_commit. destruct (rres _); [reflexivity|]. destruct (is_info 200); reflexivity. Qed.
 
 Lemma committed_unfrozen_live fl h0 pre :
   rres (committed fl h0 pre) = None -> spec_panic fl false pre = None -> info_first fl pre = false ->
@@ -1596,10 +1622,34 @@ Proof.
   destruct O as [E|ex E|k' pre E1 E2 E3 E4|p E]; try congruence.
   assert (k' = k) by congruence. subst k'.
   split; [congruence|]. split.
-  - rewrite E4. unfold timeout_write, rw_write. cbn.
-    destruct (rres (committed fl h0 pre)) eqn:Er.
-    + rewrite (rw_wh_frozen _ _ _ Er). rewrite (rw_wh_frozen _ _ _ Er). congruence.
-    + rewrite (rw_wh_final _ _ (is_info_timeout_code k) Er). cbn. discriminate.
+  - rewrite E4.
+    change (rres (timeout_write k (committed fl h0 pre)))
+      with (snd (fst (rw_view (timeout_write k (committed fl h0 pre))))).
+    rewrite timeout_write_view. destruct (rres (committed fl h0 pre)); discriminate.
   - intros Hf. destruct (all_or_nothing_lemma fl h0 script sched Hf) as [F|ex F|k' F1 F2 F3|p F]; try congruence.
     assert (k' = k) by congruence. subst k'. rewrite F3. reflexivity.
+Qed.
+
+(* ------------------------------------------------------------------ *)
+(* what the OUTER middlewares record (response.WithCodeResponseWriter.Code) *)
+
+Lemma outer_view_lemma fl h0 script sched :
+  let s := run (init fl h0 script) sched in
+  (forall k, sst s = STimeoutRet k -> rcode (rw s) = timeout_code k) /\
+  (sst s = SDoneRet -> fl = false \/ has_flush script = false -> info_first fl (hexec s) = false ->
+   rres (rw s) = Some (rcode (rw s), rlive (rw s)) /\ rcode (rw s) = spec_status false (hexec s)) /\
+  (sst s = SWait -> fl = false \/ has_flush script = false -> rcode (rw s) = 200 /\ rres (rw s) = None).
+Proof.
+  intros s. split; [|split].
+  - intros k Hs.
+    pose proof (all_or_nothing_flush_lemma fl h0 script sched) as O. fold s in O.
+    destruct O as [E|ex E|k' pre E1 E2 E3 E4|p E]; try congruence.
+    assert (k' = k) by congruence. subst k'. rewrite E4. apply timeout_write_code.
+  - intros Hs Hf Hi.
+    pose proof (all_or_nothing_lemma fl h0 script sched Hf) as O. fold s in O.
+    destruct O as [E|ex E1 E2 E3 E4 E5 E6 E7|k' E|p E]; try congruence.
+    subst ex. rewrite (E7 Hi). cbn. split; reflexivity.
+  - intros Hs Hf.
+    pose proof (all_or_nothing_lemma fl h0 script sched Hf) as O. fold s in O.
+    destruct O as [E1 E2|ex E|k' E|p E]; try congruence. rewrite E2. split; reflexivity.
 Qed.
